@@ -240,7 +240,7 @@ type vProbe struct {
 	ended     []bool // per subscription: the source emitted its own terminal
 	ctxs      []context.Context
 	dests     []Observer[int64]
-	script    []vStep // played synchronously inside Subscribe when cold
+	script    []vStep   // played synchronously inside Subscribe when cold
 	scripts   [][]vStep // if set: the n-th subscription plays scripts[n] (Complete when exhausted)
 	objs      []Subscription
 	closing   []bool
@@ -249,6 +249,7 @@ type vProbe struct {
 	yieldSub  bool // vYield inside SubscribeWithContext (widens the window for concurrent subscribers)
 	yieldEmit bool // vYield before each emission of a cold script (concurrent subscriptions interleave)
 	cold      bool
+	asyncPlay bool // scripts are played from a thread of their own after Subscribe has returned
 	syncTerm  int  // if set: the next subscription emits this terminal synchronously inside Subscribe (once)
 	itemCtx   bool // attach a per-item marker to the context of each Next
 }
@@ -293,10 +294,29 @@ func (p *vProbe) SubscribeWithContext(ctx context.Context, d Observer[int64]) Su
 	if p.yieldSub {
 		vYield()
 	}
+	p.play(i)
+	return sub
+}
+
+// play emits what subscription i gets at subscription time (both probe flavours).
+func (p *vProbe) play(i int) {
 	if p.syncTerm != 0 {
 		k := p.syncTerm
 		p.syncTerm = 0
 		p.emitAt(i, vStep{kind: k})
+	} else if p.scripts != nil && p.asyncPlay {
+		steps := []vStep{{kind: vkComplete}}
+		if i < len(p.scripts) {
+			steps = p.scripts[i]
+		}
+		vGo(func() {
+			for _, st := range steps {
+				vYield()
+				if p.torn[i] == 0 {
+					p.emitAt(i, st)
+				}
+			}
+		})
 	} else if p.scripts != nil {
 		if i < len(p.scripts) {
 			for _, st := range p.scripts[i] {
@@ -313,7 +333,6 @@ func (p *vProbe) SubscribeWithContext(ctx context.Context, d Observer[int64]) Su
 			p.emitAt(i, st)
 		}
 	}
-	return sub
 }
 
 func (p *vProbe) emitAt(i int, st vStep) {
@@ -329,7 +348,7 @@ func (p *vProbe) emitAt(i int, st vStep) {
 		p.ended[i] = true
 	}
 	vEmit(p.dests[i], ctx, st)
-	if st.kind != vkNext && i < len(p.objs) && !p.closing[i] {
+	if st.kind != vkNext && i < len(p.objs) && p.objs[i] != nil && !p.closing[i] {
 		// like every real source, the probe's subscription is closed once it has terminated
 		p.closing[i] = true
 		p.objs[i].Unsubscribe()
@@ -359,11 +378,8 @@ func (p *vProbe) maxTorn() int {
 func vSubProbe(p *vProbe) Observable[int64] {
 	return NewUnsafeObservableWithContext(func(ctx context.Context, d Observer[int64]) Teardown {
 		i, teardown := p.register(ctx, d)
-		if p.cold {
-			for _, st := range p.script {
-				p.emitAt(i, st)
-			}
-		}
+		p.objs = append(p.objs, nil) // the subscriber created by the library closes itself
+		p.play(i)
 		return teardown
 	})
 }
@@ -387,11 +403,11 @@ func vInstallHooks() *vHookCounts {
 // an error value (kind 0) or an arbitrary value (kind 1).
 
 type vFaultPlan struct {
-	pos    string
-	idx    int
-	kind   int
-	counts map[string]int
-	fired  int
+	pos         string
+	idx         int
+	kind        int
+	counts      map[string]int
+	fired       int
 	rec         *vRecorder
 	termsAtFire int // terminals already delivered downstream when the fault fired
 }
@@ -424,9 +440,11 @@ type vRawObserver struct{ r *vRecorder }
 
 var _ Observer[int64] = (*vRawObserver)(nil)
 
-func (o *vRawObserver) Next(v int64)                                  { o.NextWithContext(context.Background(), v) }
-func (o *vRawObserver) NextWithContext(ctx context.Context, v int64) { o.r.enter(vkNext, []int64{v}, nil, ctx) }
-func (o *vRawObserver) Error(err error)                               { o.ErrorWithContext(context.Background(), err) }
+func (o *vRawObserver) Next(v int64) { o.NextWithContext(context.Background(), v) }
+func (o *vRawObserver) NextWithContext(ctx context.Context, v int64) {
+	o.r.enter(vkNext, []int64{v}, nil, ctx)
+}
+func (o *vRawObserver) Error(err error) { o.ErrorWithContext(context.Background(), err) }
 func (o *vRawObserver) ErrorWithContext(ctx context.Context, err error) {
 	o.r.enter(vkError, nil, err, ctx)
 }
@@ -442,9 +460,11 @@ type vRawObs[T any] struct {
 	flat func(T) []int64
 }
 
-func (o *vRawObs[T]) Next(v T)                                  { o.NextWithContext(context.Background(), v) }
-func (o *vRawObs[T]) NextWithContext(ctx context.Context, v T) { o.r.enter(vkNext, o.flat(v), nil, ctx) }
-func (o *vRawObs[T]) Error(err error)                           { o.ErrorWithContext(context.Background(), err) }
+func (o *vRawObs[T]) Next(v T) { o.NextWithContext(context.Background(), v) }
+func (o *vRawObs[T]) NextWithContext(ctx context.Context, v T) {
+	o.r.enter(vkNext, o.flat(v), nil, ctx)
+}
+func (o *vRawObs[T]) Error(err error) { o.ErrorWithContext(context.Background(), err) }
 func (o *vRawObs[T]) ErrorWithContext(ctx context.Context, err error) {
 	o.r.enter(vkError, nil, err, ctx)
 }
